@@ -34,8 +34,16 @@ Definition mgr_init (i : N) : mgr := Mg i (update_local init i 0 0) [] 0 0 [].
 
 Definition inc_of (s : st) (m : N) : N := match get s m with Some e => inc e | None => 0 end.
 
+Fixpoint ins_sorted (p : N) (l : list N) : list N :=
+  match l with
+  | [] => [p]
+  | x :: r => if N.leb p x then p :: l else x :: ins_sorted p r
+  end.
+
+(* known_peers is kept as a set (ascending order here; the order only decides in which order the envelopes of
+   one step are handed to the transport, which the correspondence check canonicalises) *)
 Definition add_peer (g : mgr) (p : N) : mgr :=
-  let ps := if memN p (peers g) then peers g else peers g ++ [p] in
+  let ps := if memN p (peers g) then peers g else ins_sorted p (peers g) in
   let s := match get (lww g) p with
            | Some _ => lww g
            | None => let s1 := tick (lww g) in fst (merge sup s1 [(p, U 3 (clock s1) 0)])
@@ -120,12 +128,16 @@ Fixpoint set_mgr (l : list mgr) (r : nat) (g : mgr) : list mgr :=
   | h :: t, S k => h :: set_mgr t k g
   end.
 
-Definition minit (R : N) : msys :=
-  MS (map (fun i => fold_left add_peer (filter (fun p => negb (N.eqb p i)) (N_seq R)) (mgr_init i)) (N_seq R)) [].
+(* R managers; manager i starts out knowing the peers pf i (registered with add_peer in that order) *)
+Definition minitP (R : N) (pf : N -> list N) : msys :=
+  MS (map (fun i => fold_left add_peer (pf i) (mgr_init i)) (N_seq R)) [].
+Definition all_others (R : N) (i : N) : list N := filter (fun p => negb (N.eqb p i)) (N_seq R).
+Definition minit (R : N) : msys := minitP R (all_others R).
 
 Inductive mop :=
 | MRound (r : N) (order : list N)       (* gossip_round on manager r *)
 | MSuspectNode (r m : N)                (* suspect_node(m) on manager r *)
+| MAddPeer (r p : N)                    (* add_peer(p) on manager r, at any time *)
 | MDeliver (k : N).                     (* the network hands envelope k to its destination (it stays in the pool:
                                            duplication; never chosen: loss; any k: reordering) *)
 
@@ -140,6 +152,8 @@ Definition mstep (s : msys) (o : mop) : msys * N :=
       if inb s r then (upd_sys s r (gossip_round (nth_mgr (mgrs s) r) order), r) else (s, r)
   | MSuspectNode r m =>
       if inb s r then (upd_sys s r (suspect_node (nth_mgr (mgrs s) r) m), r) else (s, r)
+  | MAddPeer r p =>
+      if inb s r then (upd_sys s r (add_peer (nth_mgr (mgrs s) r) p, []), r) else (s, r)
   | MDeliver k =>
       match nth_error (mpool s) (N.to_nat k) with
       | Some (dst, m) => if inb s dst then (upd_sys s dst (handle (nth_mgr (mgrs s) dst) m), dst) else (s, dst)
